@@ -537,6 +537,31 @@ def d3_validators(ctx, idx):
                             'it are accepted', where, expected='in')
                 continue
             kn, kh = _strip_kind(needle, nv), _strip_kind(hay, hv)
+
+            def prepared_by_callee(ro):
+                """The items come out of a package function (e.g. a generator that yields the expressions already stripped):
+                'stripped' if every value it yields/returns is <item>.replace(' ', '') of its own loop variable, else 'unknown'."""
+                seq = ro[3].iter
+                calls = [c for c in ast.walk(seq) if isinstance(c, ast.Call) and isinstance(c.func, ast.Name)
+                         and c.func.id in fi.module.funcs]
+                if not calls:
+                    return None
+                h = fi.module.funcs[calls[0].func.id]
+                outs = [n.value for n in walk_own(h.node) if isinstance(n, (ast.Yield, ast.Return)) and n.value is not None]
+                henv = lib.local_env(h.node)
+                ok_all = bool(outs)
+                for o in outs:
+                    o = fl.expand(o, henv)
+                    if isinstance(o, (ast.ListComp, ast.GeneratorExp)):
+                        o = o.elt
+                    names = [n.id for n in ast.walk(o) if isinstance(n, ast.Name)]
+                    if not any(_strip_kind(o, v) == 'stripped' for v in names):
+                        ok_all = False
+                return 'stripped' if ok_all else 'unknown'
+            if kh == 'raw' and prepared_by_callee(hrole) is not None:
+                kh = 'stripped' if prepared_by_callee(hrole) == 'stripped' else None
+            if kn == 'raw' and prepared_by_callee(nrole) is not None:
+                kn = 'stripped' if prepared_by_callee(nrole) == 'stripped' else None
             if kh == 'raw':
                 r.violation(C + ': test [student side]', "spaces are not removed from the student's expression: '+x' is missed when the "
                             "student types it with a space inside (e.g. '+ x' vs '+x')", where, expected="expression.replace(' ', '')")
@@ -1139,6 +1164,35 @@ def d4_scrub(ctx, idx):
 
 
 # ----------------------------------------------------------------------------- D5
+class _RowSimplifier(ast.NodeTransformer):
+    """After a table row was substituted: getattr(self, 'name') -> self.name ;  (a, b, c)[1] -> b."""
+
+    def __init__(self, selfname):
+        self.selfname = selfname
+
+    def visit_Call(self, node):
+        self.generic_visit(node)
+        if isinstance(node.func, ast.Name) and node.func.id == 'getattr' and len(node.args) == 2 and not node.keywords \
+                and isinstance(node.args[1], ast.Constant) and isinstance(node.args[1].value, str) and node.args[1].value.isidentifier():
+            return ast.Attribute(value=node.args[0], attr=node.args[1].value, ctx=ast.Load())
+        return node
+
+    def visit_Subscript(self, node):
+        self.generic_visit(node)
+        k = nf.const_value(node.slice, None)
+        if isinstance(node.value, (ast.Tuple, ast.List)) and isinstance(k, int) and not isinstance(k, bool) \
+                and -len(node.value.elts) <= k < len(node.value.elts):
+            return node.value.elts[k]
+        return node
+
+
+def _simplify_rows(expr, selfname):
+    from ..index import clone
+    out = _RowSimplifier(selfname).visit(clone(expr))
+    ast.fix_missing_locations(out)
+    return out
+
+
 def d5_scope(ctx, idx):
     r = ctx.rule('D5.SCOPE', 'every evaluation first checks the parse-time name sets against the given scope', floor=22)
     with r:
@@ -1205,6 +1259,25 @@ def d5_scope(ctx, idx):
             for loop in [l for l in lib.loops_of(f.node) if isinstance(l, ast.For) and isinstance(l.target, (ast.Tuple, ast.List))
                          and all(isinstance(e, ast.Name) for e in l.target.elts)]:
                 table = fl.expand(loop.iter, fenv)
+                if isinstance(table, ast.Attribute) and fl.name_of(table.value) == f.params[0] and f.cls is not None:
+                    k_, v_ = idx.lookup_attr(f.cls, table.attr)       # a class-level table: self._scope_checks
+                    table = v_ if v_ is not None else table
+                if isinstance(table, ast.Call):
+                    table = fl.inline_expr_helpers(idx, f, table)      # a new method that just returns the literal table
+                if isinstance(table, ast.Call):
+                    # ... or a generator whose body is nothing but `yield <row>` statements: the rows in order
+                    try:
+                        tg, how = idx.resolve_call(f, table)
+                    except Exception:
+                        tg = []
+                    tg = [t for t in tg if not isinstance(t, tuple)]
+                    if len(tg) == 1 and not table.keywords:
+                        gbody = fl.strip_docstring(tg[0].node.body)
+                        gparams = tg[0].params[1:] if tg[0].cls is not None and not tg[0].is_static else tg[0].params
+                        if gbody and all(isinstance(x, ast.Expr) and isinstance(x.value, ast.Yield) and x.value.value is not None for x in gbody) \
+                                and len(gparams) == len(table.args):
+                            genv = dict(zip(gparams, table.args))
+                            table = ast.Tuple(elts=[nf.subst(x.value.value, genv) for x in gbody], ctx=ast.Load())
                 if not (isinstance(table, (ast.List, ast.Tuple)) and table.elts and
                         all(isinstance(row, (ast.Tuple, ast.List)) and len(row.elts) == len(loop.target.elts) for row in table.elts)):
                     continue
@@ -1214,7 +1287,7 @@ def d5_scope(ctx, idx):
                         conj = fl.reach_condition(x, f.node)
                         if len(conj) != 1:
                             continue
-                        cond = nf.subst(fl.expand(conj[0], lenv), renv)
+                        cond = _simplify_rows(nf.subst(fl.expand(fl.expand(conj[0], lenv), fenv), renv), f.params[0])
                         view = fl.exists_view(cond, {})
                         if view is None:
                             continue
